@@ -23,6 +23,8 @@ def _fes(cfg):
 def r1_step_wrappers(ctx, cfg='A'):
     ctx.set_rule('C10.R1', cfg)
     P = ctx.progs[cfg]
+    from .dispatch import counter_field
+    CNT = counter_field(ctx, cfg)
     for m, var in (('dispatch_n_events', 'EventCount'), ('dispatch_events_until', 'SimTime')):
         f = P.fns.get(RT + '::' + m)
         if not f:
@@ -62,7 +64,7 @@ def r1_step_wrappers(ctx, cfg='A'):
                 if good and var == 'EventCount':
                     v = peel(lim[2][0])
                     v = v[1] if (v[0] == 'field' and v[1][0] == 'bin') else v
-                    good = v[0] == 'bin' and v[1].startswith('Add') and any((x[0] == 'call' and x[1] == RT + '::num_events_dispatched') or (x[0] == 'field' and x[2] == 'itr') for x in walk(v)) \
+                    good = v[0] == 'bin' and v[1].startswith('Add') and any((x[0] == 'call' and x[1] == RT + '::num_events_dispatched') or (x[0] == 'field' and x[2] == CNT) for x in walk(v)) \
                         and any(x[0] == 'arg' and x[1] == 2 for x in walk(v))
                     detail['count_limit'] = show(v)
                 elif good:
@@ -78,7 +80,7 @@ def r1_step_wrappers(ctx, cfg='A'):
         ctx.floor('returning paths of %s' % m, n, 1)
     g = P.fns.get(RT + '::num_events_dispatched')
     if g:
-        ctx.check(returned_field(g) == 'itr', 'dispatched-counter', 'num_events_dispatched reports the dispatch counter', g.where(), returned_field(g))
+        ctx.check(CNT is not None and returned_field(g) == CNT, 'dispatched-counter', 'num_events_dispatched reports the dispatch counter (the field a dispatching step increases by one)', g.where(), {'returned': returned_field(g), 'counter': CNT})
     h = P.fns.get(RT + '::dispatch_all')
     if h:
         de = h.calls_to(RT + '::dispatch_event')
@@ -168,10 +170,11 @@ def r2_limit_path(ctx, cfg='A'):
 def r3_paused_state(ctx, cfg='A'):
     ctx.set_rule('C10.R3', cfg)
     P = ctx.progs[cfg]
-    from .dispatch import dispatch_iterations
+    from .dispatch import dispatch_iterations, counter_field
     f, its, form = dispatch_iterations(ctx, cfg)
     if not f:
         return
+    CNT = counter_field(ctx, cfg)
     n = 0
     for it in its:
         path, decs = it.path, it.decs
@@ -181,7 +184,7 @@ def r3_paused_state(ctx, cfg='A'):
             continue
         n += 1
         clock = any(e[0] == 'c' and e[1].name == 'des::time::SimTime::set_now' for e in effs)
-        counter = any(e[0] == 'w' and e[2] == 'itr' for e in effs)
+        counter = any(e[0] == 'w' and e[2] == CNT for e in effs)
         ctx.check(not clock and not counter, 'paused-state-untouched',
                   'a dispatch_event call that dispatches nothing changes neither the clock nor the dispatch counter (a paused runtime reports the last dispatched event)',
                   f.where_path(path), {'clock_written': clock, 'counter_written': counter})
